@@ -80,6 +80,7 @@ type scriptDriver struct {
 	script    []recvEntry
 	sendErrAt int // index of the SendProbe call that fails, -1 = never
 	sendDur   time.Duration
+	sendDurs  []time.Duration // per-call duration of SendProbe (overrides sendDur where present)
 
 	mu       sync.Mutex
 	pos      int
@@ -101,8 +102,12 @@ func (d *scriptDriver) SendProbe(ttl uint8) error {
 	d.sendAt = append(d.sendAt, time.Since(d.start))
 	d.windows = append(d.windows, nil)
 	d.mu.Unlock()
-	if d.sendDur > 0 {
-		time.Sleep(d.sendDur)
+	dur := d.sendDur
+	if idx < len(d.sendDurs) {
+		dur = d.sendDurs[idx]
+	}
+	if dur > 0 {
+		time.Sleep(dur)
 	}
 	if idx == d.sendErrAt {
 		return errSendInjected
@@ -153,6 +158,7 @@ type engCase struct {
 	Timeout   time.Duration
 	Delay     time.Duration
 	Poll      time.Duration
+	SendDurs  []time.Duration // optional per-call SendProbe durations
 }
 
 type engOutcome struct {
@@ -200,7 +206,7 @@ func slotToken(p *common.ProbeResponse) string {
 func runEngineCase(t *testing.T, c engCase) engOutcome {
 	var out engOutcome
 	synctest.Test(t, func(t *testing.T) {
-		d := &scriptDriver{parallel: c.Parallel, script: c.Script, sendErrAt: c.SendErrAt, start: time.Now()}
+		d := &scriptDriver{parallel: c.Parallel, script: c.Script, sendErrAt: c.SendErrAt, sendDurs: c.SendDurs, start: time.Now()}
 		ctx, cancel := context.WithCancel(context.Background())
 		defer cancel()
 		if c.CancelAt > 0 {
